@@ -49,6 +49,8 @@ def programs(env, tier):
     out.append((1, [(a1[9], 0), (anc2, 0), (a1[4], 0)]))
     out.append((2, [(anc2, 1), (a1[0], 0), (("CNOT", 0), 0), (anc, 0)]))
     # heralds placed directly on the base circuit, at or below qubit modes (not through an added sub-circuit)
+    out.append((2, [(a1[9], 0), (a1[0], 1), (("CNOT",), 0), (a1[10], 1), (("DHX",), 0)]))
+    out.append((2, [(a1[0], 0), (("CZ_Heralded",), 0), (a1[7], 1), (("DHX",), 0)]))
     for w in ("DH0", "DHph", "DHmid"):
         out.append((1, [(a1[0], 0), (a1[4], 0), ((w,), 0)]))
         out.append((2, [(a1[0], 0), (a1[9], 1), (("CNOT",), 0), (a1[4], 0), (a1[7], 1), ((w,), 0)]))
